@@ -2,7 +2,11 @@
 
 package server
 
-import "github.com/resgateio/resgate/server/reserr"
+import (
+	"github.com/resgateio/resgate/server/codec"
+	"github.com/resgateio/resgate/server/rescache"
+	"github.com/resgateio/resgate/server/reserr"
+)
 
 // Verification hooks (build tag verif): read-only accessors to unexported pure functions.
 
@@ -25,4 +29,55 @@ func VerifMatchesOrigins(os []string, o string) bool {
 // VerifToLowerASCII exposes toLowerASCII.
 func VerifToLowerASCII(s string) string {
 	return toLowerASCII(s)
+}
+
+// VerifNode describes one resource of a synthetic subscription graph for the API encoders.
+type VerifNode struct {
+	RID        string
+	Err        *reserr.Error
+	Model      map[string]codec.Value
+	Collection []codec.Value
+}
+
+// VerifEncodeGET builds a tree of ready Subscriptions from the nodes (references resolved by
+// resource id) and runs the configured API encoder on the root.
+func VerifEncodeGET(encoding, apiPath string, nodes []VerifNode, root string) ([]byte, error) {
+	f := apiEncoderFactories[encoding]
+	enc := f(Config{APIPath: apiPath})
+	subs := make(map[string]*Subscription, len(nodes))
+	for _, n := range nodes {
+		s := &Subscription{rid: n.RID, state: stateReady}
+		if n.Err != nil {
+			s.err = n.Err
+		} else if n.Model != nil {
+			s.typ = rescache.TypeModel
+			s.model = &rescache.Model{Values: n.Model}
+		} else {
+			s.typ = rescache.TypeCollection
+			s.collection = &rescache.Collection{Values: n.Collection}
+		}
+		subs[n.RID] = s
+	}
+	for _, n := range nodes {
+		s := subs[n.RID]
+		add := func(v codec.Value) {
+			if v.Type == codec.ValueTypeReference {
+				if s.refs == nil {
+					s.refs = make(map[string]*reference)
+				}
+				if r, ok := s.refs[v.RID]; ok {
+					r.count++
+				} else if c, ok := subs[v.RID]; ok {
+					s.refs[v.RID] = &reference{sub: c, count: 1}
+				}
+			}
+		}
+		for _, v := range n.Model {
+			add(v)
+		}
+		for _, v := range n.Collection {
+			add(v)
+		}
+	}
+	return enc.EncodeGET(subs[root])
 }
